@@ -3,7 +3,17 @@ package vatomic
 
 import "github.com/pion/transport/v3/zzvsched"
 
-type Value = zzvsched.AtomicValue
+type (
+	Value  = zzvsched.AtomicValue
+	Int32  = zzvsched.AtomicInt32
+	Int64  = zzvsched.AtomicInt64
+	Uint32 = zzvsched.AtomicUint32
+	Uint64 = zzvsched.AtomicUint64
+	Bool   = zzvsched.AtomicBool
+)
+
+type Pointer[T any] struct{ zzvsched.AtomicPointer[T] }
+
 
 func LoadInt32(p *int32) int32                      { return zzvsched.LoadInt32(p) }
 func StoreInt32(p *int32, v int32)                  { zzvsched.StoreInt32(p, v) }
